@@ -87,3 +87,11 @@ __CPROVER_assigns(__CPROVER_object_whole(m);
                   gv_NC != 0: HI(gv_NC)->cell;
                   gv_Q != 0: HI(gv_Q)->next)
 ;
+/* clear (bounded unit: order list of <= 2 items) */
+extern void* gv_i1; extern void* gv_i2;
+_Bool hm_clear_post(void);
+void w_HashMap_clear(void* m)
+__CPROVER_ensures(hm_clear_post())
+__CPROVER_assigns(__CPROVER_object_whole(m); __CPROVER_object_upto(gv_data, NV_CAP * sizeof(void*));
+                  gv_i1 != 0: __CPROVER_object_whole(gv_i1); gv_i2 != 0: __CPROVER_object_whole(gv_i2))
+;
